@@ -1,3 +1,5 @@
 import ArroyProofs.AuditCmd
 import ArroyProofs.Properties.C14
+import ArroyProofs.Properties.Unconditional
+import ArroyProofs.Properties.Reachable
 #audit Arroy.C14
